@@ -167,6 +167,30 @@ func families() []family {
 			}},
 		{name: "long_allowed", fns: []string{"Satisfies", "ValidateLicenses"}, quick: geo(30, 120, 500, 1500), thor: geo(30, 120, 500, 2000, 8000),
 			build: func(u *gen.Universe, n int) (string, []string) { return "MIT OR GPL-2.0-only", firstN(u, n) }},
+		{name: "long_allowed_duplicates", fns: []string{"Satisfies", "ValidateLicenses"}, quick: geo(30, 120, 500, 1500), thor: geo(30, 120, 500, 2000, 8000),
+			build: func(u *gen.Universe, n int) (string, []string) {
+				l := make([]string, n)
+				for i := range l {
+					l[i] = []string{"GPL-2.0-or-later", "gpl-2.0+", "Apache-2.0", "(Apache-2.0)"}[i%4]
+				}
+				return "ISC OR GPL-3.0-only", l
+			}},
+		{name: "long_allowed_refs", fns: []string{"Satisfies", "ValidateLicenses"}, quick: geo(30, 120, 500, 1500), thor: geo(30, 120, 500, 2000, 8000),
+			build: func(u *gen.Universe, n int) (string, []string) {
+				l := make([]string, n)
+				for i := range l {
+					l[i] = fmt.Sprintf("DocumentRef-d%d:LicenseRef-r%d", i%7, i)
+				}
+				return "LicenseRef-r1 OR DocumentRef-d0:LicenseRef-zz", l
+			}},
+		{name: "long_allowed_with", fns: []string{"Satisfies"}, quick: geo(30, 120, 500, 1500), thor: geo(30, 120, 500, 2000, 8000),
+			build: func(u *gen.Universe, n int) (string, []string) {
+				l := make([]string, n)
+				for i := range l {
+					l[i] = idAt(u, i) + "+ WITH " + u.Exceptions[i%len(u.Exceptions)]
+				}
+				return "GPL-2.0-only WITH Classpath-exception-2.0 AND MIT", l
+			}},
 		{name: "long_both", fns: []string{"Satisfies"}, quick: geo(20, 80, 320), thor: geo(20, 80, 320, 640),
 			build: func(u *gen.Universe, n int) (string, []string) {
 				// one alternative of n terms; every term has to be searched for in the n allowed entries
